@@ -41,7 +41,7 @@ type attrCase struct {
 // all orders and multiplicities of href/rel/target
 func linkGrid(rng *rand.Rand, full bool) []attrCase {
 	var cases []attrCase
-	hrefs := []string{"http://example.org/", "/local", "#f", "javascript:alert(1)", "//host/x", "mailto:a@b.c", "http://"}
+	hrefs := []string{"http://example.org/", "/local", "#f", "javascript:alert(1)", "//host/x", "mailto:a@b.c", "http://", "%zz", "http://[::1", ":"}
 	rels := []string{"nofollow", "noopener", "noreferrer", "xnofollowx", "nonoopener", "NOFOLLOW", "me", "", "nofollow noreferrer noopener", "noreferrer nofollow", "a nofollowb",
 		"tag\u00a0nofollow\u00a0noreferrer\u00a0noopener", "a\vnofollow", "x\u0085noopener", "nofollow\u2003noreferrer", "a\tnofollow\nnoopener\fnoreferrer", "NoOpener"}
 	targets := []string{"_blank", "_self", ""}
